@@ -117,3 +117,4 @@ Print Assumptions C16_inputs.
 Print Assumptions C16_repeat.
 Print Assumptions C16_repeat_inputs.
 Print Assumptions C16_repeat_call.
+Print Assumptions C16_coverage.
